@@ -46,7 +46,7 @@ class C07(Property):
     id = "C07"
     title = "SingleFlight/LockedCalls: de-duplication without staleness, per-key exclusion"
     quick_cases = 850
-    thorough_cases = 11500
+    thorough_cases = 7000
     design_ref = "DESIGN.md §6/C07"
     level_text = ("Unbounded Rocq theorems over an interleaving model (any number of threads, any scripts of "
                   "SingleFlight.Do/DoEx, LockedCalls.Do, ResourceManager.GetResource calls on any keys with any "
@@ -204,9 +204,11 @@ class C07(Property):
             kind = rng.choice([0, 1, 3, 4])
             cases.append({"scripts": self._mk_scripts([[(kind, k, 0)] for k in (1, INST + 1, rng.choice([1, INST + 1]))]), "sched": sch})
         if not quick:
+            # four callers: 2520 gate-level interleavings per key pattern; a third of them each run
             for keys in [(1, 1, 1, 1), (1, 1, 2, 2), (1, 1, 1, 2)]:
                 for sch in interleavings([2] * 4):
-                    cases.append({"scripts": self._mk_scripts([[(rng.choice([0, 1]), k, 0)] for k in keys]), "sched": sch})
+                    if rng.random() < 0.33:
+                        cases.append({"scripts": self._mk_scripts([[(rng.choice([0, 1]), k, 0)] for k in keys]), "sched": sch})
         return cases
 
     def _rmseq_case(self, rng):
@@ -294,9 +296,16 @@ class C07(Property):
 
     # ---- execution ---------------------------------------------------------------------
     def execute(self, cases, ctx):
-        rc, out, res = vlib.go_run(self.bin, cases, tag="c07", timeout=900)
-        if rc != 0 or len(res) != len(cases):
-            raise ExecError("c07 executor rc=%s: %s" % (rc, out[-2000:]))
+        res = []
+        for i in range(0, len(cases), 2000):        # one executor process per 2000 cases
+            chunk = cases[i:i + 2000]
+            try:
+                rc, out, rs = vlib.go_run(self.bin, chunk, tag="c07", timeout=900)
+            except ValueError as e:                  # output cut off in the middle of a line: the executor was killed
+                raise ExecError("c07 executor output unreadable (killed at the time limit?): %s" % e)
+            if rc != 0 or len(rs) != len(chunk):
+                raise ExecError("c07 executor rc=%s: %s" % (rc, out[-2000:]))
+            res += rs
         return [self._digest(c, r) for c, r in zip(cases, res)]
 
     @staticmethod
@@ -454,7 +463,7 @@ class C07(Property):
             raise ExecError("c07 -race build failed: %s" % res[-1500:])
         rng = random.Random(ctx.seed * 31 + 7)
         cases = []
-        for i in range(400):
+        for i in range(1000):
             c = self._random(rng)
             while "rmseq" in c:
                 c = self._random(rng)
